@@ -10,3 +10,5 @@ open OrxPar
 #print axioms C05_kernel_step
 #print axioms C05_kernel_log
 #print axioms C05_term_events
+#print axioms C05_source_complete
+#print axioms C05_skip_to_end_loses_a_reservation
